@@ -376,3 +376,46 @@ Definition request_content_length (e : environ) : res (option Z) := get_content_
 Definition request_mimetype_params (e : environ) : res sdict :=
   do '(_, o) <- parse_options_header (or_empty (e_content_type e)); Ok o.
 Definition request_cache_control (e : environ) : res odict := parse_cache_control (e_cache_control e).
+
+(* ================================================================== more Request attributes *)
+Record environ_more := {
+  m_path : str; m_query : str; m_forwarded_for : option str; m_remote_addr : option str;
+  m_accept : option str; m_accept_charset : option str; m_accept_encoding : option str; m_accept_language : option str;
+  m_if_range : option str; m_date : option str; m_if_modified_since : option str; m_if_unmodified_since : option str }.
+
+(* Request.full_path *)
+Definition request_full_path (e : environ_more) : res str :=
+  do q <- query_text full_path_decode_replace (m_query e); Ok (m_path e ++ 63 :: q).
+
+(* Request.access_route *)
+Definition request_access_route (e : environ_more) : res (list str) :=
+  match m_forwarded_for e with
+  | Some h => Ok (parse_list_header h)
+  | None => match m_remote_addr e with Some a => Ok [a] | None => Ok [] end
+  end.
+
+(* Request.accept_mimetypes / accept_charsets / accept_encodings / accept_languages: the shared parse loop
+   (the class-specific sorting and matching are C17's model) *)
+Definition request_accept (h : option str) : res (list (str * option str)) :=
+  match h with None => Ok [] | Some v => parse_accept_items v end.
+
+(* Request.if_range over a model of email.utils.parsedate_to_datetime *)
+Definition request_if_range {D : Type} (parsedate : str -> res D) (e : environ_more) : res (if_range D) :=
+  match m_if_range e with
+  | None => Ok IrNone
+  | Some [] => Ok IrNone
+  | Some v =>
+    do o <- parse_date_over parsedate (Some v);
+    match o with
+    | Some d => Ok (IrDate d)
+    | None => Ok (match unquote_etag v with Some (t, _) => IrEtag t | None => IrNone end)
+    end
+  end.
+
+(* Request.date / if_modified_since / if_unmodified_since *)
+Definition request_date_header {D : Type} (parsedate : str -> res D) (h : option str) : res (option D) := parse_date_over parsedate h.
+
+(* the host part of Request.url / base_url / root_url / host_url: get_host, then the netloc and port checks of urlsplit
+   inside uri_to_iri (IDNA decoding, bracketed literals and the NFKC check are outside the model) *)
+Record url_environ := { u_scheme : str; u_host : option str; u_server : option (str * option str) }.
+Definition request_url_port (e : url_environ) : res (option N) := url_port (get_host (u_scheme e) (u_host e) (u_server e)).
